@@ -67,6 +67,40 @@ var c10StressProfiles = map[string]config.StressReliefConfig{
 
 var c10StressProfileNames = []string{"default", "inverted", "equalAlways", "zero", "monitor"}
 
+// c10StressRefusable mirrors the model constant Rejectable: records an
+// implementation may refuse as a whole (then the reported rate and the
+// threshold must both stay what they were).
+var c10StressRefusable = map[string]bool{"inverted": true}
+
+// c10StressConsistent checks a set of answers about ONE trace ID, each by the
+// rate the node reported: the same reported rate means the same decision, and
+// decisions are nested in the reported rate.
+func c10StressConsistent(obs []c10StressAnswer) (agree, nested bool) {
+	agree, nested = true, true
+	byRate := map[uint]bool{}
+	for _, o := range obs {
+		if k, seen := byRate[o.rate]; seen && k != o.keep {
+			agree = false
+		}
+		byRate[o.rate] = o.keep
+	}
+	for r1, k1 := range byRate {
+		for r2, k2 := range byRate {
+			if r1 <= r2 && k2 && !k1 {
+				nested = false
+			}
+		}
+	}
+	return agree, nested
+}
+
+func c10StressWantRate(r uint64) uint {
+	if r == 0 {
+		return 1
+	}
+	return uint(r)
+}
+
 // configure is the reload path: the whole configuration record changes,
 // UpdateFromConfig re-reads it.
 func (n *c10StressNode) configure(rate uint64, profile string) (err error) {
@@ -196,33 +230,38 @@ func (h *c10StressHarness) sweep() {
 		h.panicMsg = err.Error()
 		return
 	}
-	dropped := false
+	var obs []c10StressAnswer
 	for k, r := range append([]uint64{0, 1}, rates...) {
 		// two nodes started with different records that share only the rate
-		n1, e1 := c10StressFresh(r, c10StressProfileNames[k%len(c10StressProfileNames)])
-		n2, e2 := c10StressFresh(r, c10StressProfileNames[(k+1+h.h)%len(c10StressProfileNames)])
-		if e1 != nil || e2 != nil {
-			h.panicMsg = fmt.Sprint(e1, e2)
-			return
+		profs := []string{c10StressProfileNames[k%len(c10StressProfileNames)], c10StressProfileNames[(k+1+h.h)%len(c10StressProfileNames)]}
+		for _, prof := range profs {
+			n, err := c10StressFresh(r, prof)
+			if err != nil {
+				h.panicMsg = err.Error()
+				return
+			}
+			a, err := n.ask(h.id)
+			if err != nil {
+				h.panicMsg = err.Error()
+				return
+			}
+			// the decision is the one of the reported rate; the reported rate is the
+			// configured one (a refusable record may leave a fresh node at "keep all, 1")
+			if a.keep != c10StressSpace.Expected(uint64(a.rate), h.id) {
+				h.sweepDisagrees = true
+			}
+			if a.rate != c10StressWantRate(r) && !(c10StressRefusable[prof] && a.rate == 1 && a.keep) {
+				h.sweepDisagrees = true
+			}
+			obs = append(obs, a)
 		}
-		a1, e1 := n1.ask(h.id)
-		a2, e2 := n2.ask(h.id)
-		if e1 != nil || e2 != nil {
-			h.panicMsg = fmt.Sprint(e1, e2)
-			return
-		}
-		if a1 != a2 {
-			h.twoDiffer = true
-		}
-		if a1.keep && dropped {
-			h.notNested = true
-		}
-		if !a1.keep {
-			dropped = true
-		}
-		if a1.keep != c10StressSpace.Expected(r, h.id) {
-			h.sweepDisagrees = true
-		}
+	}
+	agree, nested := c10StressConsistent(obs)
+	if !agree {
+		h.twoDiffer = true
+	}
+	if !nested {
+		h.notNested = true
 	}
 }
 
@@ -347,7 +386,11 @@ func TestVerifC10StressStats(t *testing.T) {
 	b := make([]*c10StressNode, len(rates))
 	for k, r := range rates {
 		var err error
-		if b[k], err = c10StressFresh(r, c10StressProfileNames[k%len(c10StressProfileNames)]); err != nil {
+		prof := c10StressProfileNames[k%len(c10StressProfileNames)]
+		if c10StressRefusable[prof] {
+			prof = "default"
+		}
+		if b[k], err = c10StressFresh(r, prof); err != nil {
 			add(map[string]any{"kind": "panic", "rate": r, "error": err.Error()})
 		}
 	}
@@ -359,6 +402,7 @@ func TestVerifC10StressStats(t *testing.T) {
 		return
 	}
 	kept := make([]int, len(rates))
+	prevRate := uint(1) // what the never configured node a reports
 	for i := 0; i < n; i++ {
 		id := c10StressRandomID(rng)
 		dropped := false
@@ -384,10 +428,28 @@ func TestVerifC10StressStats(t *testing.T) {
 				add(map[string]any{"kind": "disagrees-with-Keep(hash,N)", "id": id, "rate": r, "hash": c10StressHash(id), "observed_keep": a1.keep, "observed_rate": a1.rate, "expected_keep": want})
 			}
 			if i%16 == 0 {
+				// the reloaded node and a node started with a refusable record: judged by
+				// the rate they report
+				prof := c10StressProfileNames[(i/16+k)%len(c10StressProfileNames)]
 				a2, _ := a.ask(id)
-				if a1 != a2 {
-					add(map[string]any{"kind": "two-instances-disagree", "id": id, "rate": r})
+				fresh, ferr := c10StressFresh(r, "inverted")
+				if ferr != nil {
+					add(map[string]any{"kind": "panic", "rate": r, "error": ferr.Error()})
+					continue
 				}
+				a3, _ := fresh.ask(id)
+				for _, o := range []c10StressAnswer{a2, a3} {
+					if o.keep != c10StressSpace.Expected(uint64(o.rate), id) {
+						add(map[string]any{"kind": "decision-does-not-match-reported-rate", "id": id, "configured_rate": r, "reported_rate": o.rate, "keep": o.keep, "hash": c10StressHash(id)})
+					}
+				}
+				if a2.rate != wantRate && !(c10StressRefusable[prof] && a2.rate == prevRate) {
+					add(map[string]any{"kind": "reload-did-not-take-effect", "configured_rate": r, "profile": prof, "reported_rate": a2.rate})
+				}
+				if a3.rate != wantRate && !(a3.rate == 1 && a3.keep) {
+					add(map[string]any{"kind": "start-did-not-take-effect", "configured_rate": r, "reported_rate": a3.rate})
+				}
+				prevRate = a2.rate
 			}
 			if a1.keep && dropped {
 				add(map[string]any{"kind": "not-nested", "id": id, "rate": r})
